@@ -276,10 +276,11 @@ def oracle(cases, lookback=5):
             nonlocal failed
             if c.get("witness_of") == sig and sig in WITNESS_SIGS:
                 st["witnesses_reproduced"][sig] = st["witnesses_reproduced"].get(sig, 0) + 1
-                return
+                return False
             failed = True
             fails.append({"kind": "oracle", "signature": sig, "what": f"{c['id']} step {k} `{c['ops'][k]}`: {what}",
                           "replay_body": case_text(c, k, f"oracle: {sig}: {what}"), "case": c, "step": k})
+            return True
 
         for k, (op, o) in enumerate(zip(c["ops"], c["impl"])):
             if failed:
@@ -287,7 +288,7 @@ def oracle(cases, lookback=5):
             t = op.split()
             res, _, view = o.partition(" | ")
             if res == "panic" or "panic" in view:
-                fail(k, "panic", f"the harness panicked: {o[:200]}"); break
+                if fail(k, "panic", f"the harness panicked: {o[:200]}"): break
             if t[0] == "client":
                 i = int(t[1]); cfg[i] = (int(t[3]), int(t[4]), int(t[5])); epoch[i] = 1
                 bump(hist["T"], t[3]); bump(hist["F"], t[4]); bump(hist["P"], t[5])
@@ -296,40 +297,40 @@ def oracle(cases, lookback=5):
                 i, tok = int(t[1]), int(t[2])
                 m = re.match(r"ev=(\d+) mid=(\d+)", res)
                 if not m:
-                    fail(k, "send-failed", f"create_message failed: {res}"); break
+                    if fail(k, "send-failed", f"create_message failed: {res}"): break
                 g = sendcount.get((i, epoch[i]), 0); sendcount[(i, epoch[i])] = g + 1
                 events.append({"kind": "msg", "sender": i, "epoch": epoch[i], "gen": g, "tok": tok, "mid": m.group(2)})
                 accepted.setdefault(i, {})
             elif t[0] == "commit":
                 i = int(t[1])
                 if not res.startswith("ev="):
-                    fail(k, "commit-failed", f"self_update / merge failed: {res}"); break
+                    if fail(k, "commit-failed", f"self_update / merge failed: {res}"): break
                 events.append({"kind": "commit", "by": i, "epoch": epoch[i]}); epoch[i] += 1
             elif t[0] not in ("deliver", "view", "group"):
                 continue
             j = 0 if t[0] == "group" else int(t[1])
             cur = parse_view(view)
             if cur is None:
-                fail(k, "panic", f"unreadable view: {view[:200]}"); break
+                if fail(k, "panic", f"unreadable view: {view[:200]}"): break
             # rows: unique, sound, persistent
             if cur["dup"]:
-                fail(k, "two-rows", f"client {j} stores two rows with one message id: {cur['raw'][:300]}"); break
+                if fail(k, "two-rows", f"client {j} stores two rows with one message id: {cur['raw'][:300]}"): break
             for mid, f in cur["rows"].items():
                 st["rows_checked"] += 1
                 ev = next((e for e in events if e["kind"] == "msg" and e["mid"] == mid), None)
                 if ev is None:
-                    fail(k, "row-without-acceptance", f"client {j} stores a row for an unknown message: {f}"); break
+                    if fail(k, "row-without-acceptance", f"client {j} stores a row for an unknown message: {f}"): break
                 if f[1] != str(ev["sender"]) or f[4] != str(ev["tok"]) or f[5:8] != expected_fields(ev["tok"]) or f[8] != "1":
-                    fail(k, "stored-row-differs", f"client {j}: row {':'.join(f)} does not carry what sender {ev['sender']} gave message {mid} (tok {ev['tok']}, kind/ts/tags {expected_fields(ev['tok'])})"); break
+                    if fail(k, "stored-row-differs", f"client {j}: row {':'.join(f)} does not carry what sender {ev['sender']} gave message {mid} (tok {ev['tok']}, kind/ts/tags {expected_fields(ev['tok'])})"): break
                 if ev["sender"] != j and mid not in accepted.get(j, {}) and not (t[0] == "deliver" and events[int(t[2])].get("mid") == mid):
-                    fail(k, "row-without-acceptance", f"client {j} stores a row for message {mid} although no delivery of it was accepted"); break
+                    if fail(k, "row-without-acceptance", f"client {j} stores a row for message {mid} although no delivery of it was accepted"): break
             if failed:
                 break
             if j in prev:
                 for mid, f in prev[j]["rows"].items():
                     g = cur["rows"].get(mid)
                     if g is None or (f[2] == "p" and g != f):
-                        fail(k, "row-lost", f"client {j}: row {':'.join(f)} became {g and ':'.join(g)}"); break
+                        if fail(k, "row-lost", f"client {j}: row {':'.join(f)} became {g and ':'.join(g)}"): break
             if failed:
                 break
             if t[0] == "deliver":
@@ -339,7 +340,7 @@ def oracle(cases, lookback=5):
                     if res == "commit":
                         epoch[j] += 1
                     else:
-                        fail(k, "commit-not-applied", f"client {j} did not apply the in-order commit {n}: {res}"); break
+                        if fail(k, "commit-not-applied", f"client {j} did not apply the in-order commit {n}: {res}"): break
                 else:
                     st["deliveries"] += 1
                     T, F, P = cfg[j]
@@ -351,7 +352,7 @@ def oracle(cases, lookback=5):
                     bump(hist["result"], res.split(":")[0] if not res.startswith("err") else res)
                     st["accepted" if app else "refused"] += 1
                     if app and res != f"app:{mid}":
-                        fail(k, "stored-row-differs", f"client {j}: delivery of message {mid} returned {res}"); break
+                        if fail(k, "stored-row-differs", f"client {j}: delivery of message {mid} returned {res}"): break
                     if not first:
                         st["duplicates"] += 1
                     if s == j:
@@ -361,12 +362,12 @@ def oracle(cases, lookback=5):
                         if inside:
                             if not app or cur["rows"].get(mid, [None] * 3)[2] != "p":
                                 sig = "past-epoch-window-capped-by-outer-lookback" if r - m > lookback else "own-copy-not-confirmed"
-                                fail(k, sig, f"sender {j}: the echo of its own message {mid} (epoch {m}, receiver epoch {r}, max_past_epochs {P}) gave {res}, row {cur['rows'].get(mid)}"); break
+                                if fail(k, sig, f"sender {j}: the echo of its own message {mid} (epoch {m}, receiver epoch {r}, max_past_epochs {P}) gave {res}, row {cur['rows'].get(mid)}"): break
                             st["own_echo_confirmed"] += 1
                         elif first:
                             st["own_echo_outside_window"] += 1
                         if app and not first:
-                            fail(k, "accepted-twice", f"sender {j}: a second echo of message {mid} was accepted again"); break
+                            if fail(k, "accepted-twice", f"sender {j}: a second echo of message {mid} was accepted again"): break
                     else:
                         key = (j, m, s)
                         hd = h.get(key, 0)
@@ -384,19 +385,19 @@ def oracle(cases, lookback=5):
                                 st["outside_kind"][why] = st["outside_kind"].get(why, 0) + 1
                         if inside and not app:
                             sig = "past-epoch-window-capped-by-outer-lookback" if r - m > lookback else "inside-window-message-refused"
-                            fail(k, sig, f"client {j} (T={T} F={F} P={P}, epoch {r}): first offer of message {mid} of sender {s} (epoch {m}, generation {g}; head of that ratchet {hd}) is inside all windows but gave {res}"); break
+                            if fail(k, sig, f"client {j} (T={T} F={F} P={P}, epoch {r}): first offer of message {mid} of sender {s} (epoch {m}, generation {g}; head of that ratchet {hd}) is inside all windows but gave {res}"): break
                         if app:
                             if mid in accepted.setdefault(j, {}):
-                                fail(k, "accepted-twice", f"client {j} accepted message {mid} again (wrapper {n}; first by wrapper {accepted[j][mid]})"); break
+                                if fail(k, "accepted-twice", f"client {j} accepted message {mid} again (wrapper {n}; first by wrapper {accepted[j][mid]})"): break
                             accepted[j][mid] = n
                             h[key] = max(hd, g + 1)
                             row = cur["rows"].get(mid)
                             if row is None or row[2] != "p":
-                                fail(k, "inside-window-message-refused", f"client {j}: accepted message {mid} has no Processed row: {row}"); break
+                                if fail(k, "inside-window-message-refused", f"client {j}: accepted message {mid} has no Processed row: {row}"): break
                             if first and not inside:
                                 st["outside_accepted"] += 1
                         elif j in prev and cur["raw"] != prev[j]["raw"]:
-                            fail(k, "refused-with-effect", f"client {j}: a refused delivery changed the message rows"); break
+                            if fail(k, "refused-with-effect", f"client {j}: a refused delivery changed the message rows"): break
             prev[j] = cur
         if failed:
             continue
